@@ -1483,6 +1483,10 @@ Error Assembler::_emit(InstId inst_id, const Operand_& o0, const Operand_& o1, c
           shift_value = o2.as<Imm>().value_as<uint64_t>();
         }
 
+        // Only physical register ids can be encoded (0..30, SP, and ZR).
+        if (!(check_gp_id(o0, kZR) || check_gp_id(o0, kSP)) || !(check_gp_id(o1, kZR) || check_gp_id(o1, kSP)))
+          goto InvalidPhysId;
+
         bool has_sp = o0.as<Gp>().is_sp() || o1.as<Gp>().is_sp();
 
         // Shift operation - LSL, LSR, ASR.
